@@ -331,6 +331,20 @@ Scenario const scen_restart = {"restart", gen_restart, exec_restart};
 // ------------------------------------------------------------------------------------------------
 // durable: C05
 
+// only checkpoints whose numeric fields are finite are in the domain of the text round trip
+static bool view_finite(ChkptView const& v)
+{
+    for (auto const& r : v.results)
+    {
+        if (!std::isfinite(r.sum) || !std::isfinite(r.sumsq)) return false;
+        for (ld x : r.adj) if (!std::isfinite(x)) return false;
+        for (ld x : r.weights) if (!std::isfinite(x)) return false;
+        for (ld x : r.pdf) if (!std::isfinite(x)) return false;
+    }
+    for (ld x : v.next) if (!std::isfinite(x)) return false;
+    return true;
+}
+
 static Plan gen_durable(Rng& r, int tier, std::string const&)
 {
     Plan p;
@@ -396,15 +410,7 @@ static void exec_durable(Plan const& p, Report& rep)
         RunOut const o = s.run(p.calls, ctl);
         if (o.threw || o.killed) return;
         // only checkpoints whose numeric fields are finite are in the domain
-        ChkptView const v = s.w->view();
-        for (auto const& r : v.results)
-        {
-            if (!std::isfinite(r.sum) || !std::isfinite(r.sumsq)) return;
-            for (ld x : r.adj) if (!std::isfinite(x)) return;
-            for (ld x : r.weights) if (!std::isfinite(x)) return;
-            for (ld x : r.pdf) if (!std::isfinite(x)) return;
-        }
-        for (ld x : v.next) if (!std::isfinite(x)) return;
+        if (!view_finite(s.w->view())) return;
         rep.probes["state-from-run"]++;
     }
 
@@ -444,6 +450,8 @@ static Plan gen_rollback(Rng& r, int tier, std::string const&)
             op.kind = OP_RUN;
             op.a = 1 + r.below(L - len);
             len += op.a;
+            // a continuation with other numbers of calls than the first time (bits 32..: what is added)
+            if (r.chance(0.3)) op.a |= (1 + r.below(7)) << 32;
         }
         else if (k < 6)
         {
@@ -466,29 +474,42 @@ static void exec_rollback(Plan const& p, Report& rep)
     u64 const L = p.calls.size();
     RunCtl const ctl = ctl_from_plan(p);
 
-    // model: texts of all prefixes of the uninterrupted run, from runs that never call rollback
-    std::vector<std::string> text(L + 1);
+    // model: the text of the run that performs exactly the iterations the history has left in the
+    // checkpoint, from runs that never call rollback (memoised by the list of calls)
     bool const empty_ok = (p.integ == PLAIN) || (p.integ == VEGAS && p.grid == 1) || (p.integ == MULTI && p.wts == 1);
-    for (u64 k = 1; k <= L; ++k)
+    std::map<std::vector<u64>, std::string> memo;
+    bool model_failed = false;
+    auto const model = [&](std::vector<u64> const& c) -> std::string const&
     {
-        Report scratch;
-        Session s(p, scratch);
-        s.check = false;
-        s.fresh();
-        std::vector<u64> c(p.calls.begin(), p.calls.begin() + k);
-        RunOut const o = s.run(c, ctl);
-        if (o.threw || o.killed) return;
-        text[k] = s.w->text();
-    }
-    if (empty_ok)
-    {
-        std::unique_ptr<IWorld> w = make_world(p.nt, p.eng);
-        w->fresh(p);
-        text[0] = w->text();
-    }
+        auto it = memo.find(c);
+        if (it != memo.end()) return it->second;
+        std::string t;
+        if (c.empty())
+        {
+            if (empty_ok)
+            {
+                std::unique_ptr<IWorld> w = make_world(p.nt, p.eng);
+                w->fresh(p);
+                t = w->text();
+            }
+        }
+        else
+        {
+            Report scratch;
+            Session s(p, scratch);
+            s.check = false;
+            s.fresh();
+            RunOut const o = s.run(c, ctl);
+            if (o.threw || o.killed) model_failed = true;
+            else t = s.w->text();
+        }
+        return memo[c] = t;
+    };
+    std::vector<u64> cur;   // calls of the iterations the checkpoint holds
+    bool diverged = false;
 
     Session s(p, rep);
-    s.check = false;
+    s.check = true;    // all oracles on the runs of the history as well
     s.fresh();
     u64 len = 0;
     bool reloaded = false;
@@ -502,17 +523,23 @@ static void exec_rollback(Plan const& p, Report& rep)
 
         if (op.kind == OP_RUN)
         {
-            if (len + op.a > L) continue;
-            std::vector<u64> c(p.calls.begin() + len, p.calls.begin() + len + op.a);
+            u64 const n = op.a & 0xffffffffULL;
+            u64 const alt = op.a >> 32;
+            if (len + n > L) continue;
+            std::vector<u64> c(p.calls.begin() + len, p.calls.begin() + len + n);
+            for (u64& x : c) x += alt;
+            if (alt != 0) rep.probes["continuation-with-other-calls"]++;
             RunOut const o = s.run(c, ctl);
             if (o.threw)
             {
                 rep.fail("C15", "exception", key, o.what);
                 return;
             }
-            len += op.a;
+            if (o.killed || o.hang) return;
+            len += n;
+            cur.insert(cur.end(), c.begin(), c.end());
             ran = true;
-            what = fmt("op %zu run(%llu)", i, (unsigned long long) op.a);
+            what = fmt("op %zu run(%llu%s)", i, (unsigned long long) n, alt ? ", other calls" : "");
         }
         else if (op.kind == OP_RELOAD)
         {
@@ -564,6 +591,7 @@ static void exec_rollback(Plan const& p, Report& rep)
             rep.probes[k == len ? "rollback-noop" : k == 0 ? "rollback-to-zero" : "rollback"]++;
             if (reloaded) rep.probes["rollback-after-reload"]++;
             len = k;
+            cur.resize(k);
             what = fmt("op %zu rollback(%llu)%s", i, (unsigned long long) k, reloaded ? " after reload" : "");
         }
 
@@ -575,17 +603,31 @@ static void exec_rollback(Plan const& p, Report& rep)
         }
 
         std::string const now = s.w->text();
-        if (now != text[len])
+
+        // the text of the live object read back is the live object (C05 on every state of the history)
+        bool durable = true;
+        {
+            ChkptView const live = s.w->view();
+            std::unique_ptr<IWorld> probe = make_world(p.nt, p.eng);
+            if (view_finite(live)) durable = durability_check(p, *probe, live, now, rep, "history");
+        }
+
+        std::string const& want = model(cur);
+        if (model_failed || !durable) return;
+        if (now != want && !diverged)
         {
             std::size_t j = 0;
-            while (j < now.size() && j < text[len].size() && now[j] == text[len][j]) ++j;
+            while (j < now.size() && j < want.size() && now[j] == want[j]) ++j;
             std::string k2 = key;
             if (op.kind == OP_ROLLBACK) k2 = reloaded ? "rollback after reload" : "rollback";
             rep.fail("C15", op.kind == OP_ROLLBACK ? "rollback-state" : "history-state", k2, fmt(
                 "%s: checkpoint is not the one of a run that stopped after %llu iterations (texts differ at byte %zu of %zu/%zu)",
-                what.c_str(), (unsigned long long) len, j, now.size(), text[len].size()));
-            return;
+                what.c_str(), (unsigned long long) len, j, now.size(), want.size()));
+            // the history goes on (the other oracles look at what the diverged checkpoint does next);
+            // the comparison with the model has said what it had to say
+            diverged = true;
         }
+
     }
 }
 
@@ -626,6 +668,14 @@ static Plan gen_fscrash(Rng& r, int tier, std::string const&)
     p.variant = r.below(4);
     p.aux.assign(2, r.next());
     p.aux[1] = static_cast<u64>(tier);
+    if (r.chance(0.2))
+    {
+        // the job runs under MPI: one process writes, the others are silent; every process may be
+        // descheduled before any of its file system calls (reduction in rank order: the result must
+        // not depend on the schedule)
+        p.P = 2 + r.below(3);
+        p.rorder = 0;
+    }
     if (p.variant == 2)
     {
         u64 const n = 1 + r.below(4);
@@ -962,6 +1012,14 @@ static void exec_fscrash(Plan const& p, Report& rep)
                 c.kill_rank = 0;
             }
         }
+        // now and then the restarted program does not ask for checkpoints (same file name, silent mode):
+        // whatever an earlier kill left next to the checkpoint must stay where it is
+        bool const quiet = incarnations > 1 && (mix2(p.aux[0], 900 + incarnations) % 4) == 0;
+        if (quiet)
+        {
+            c.mode = (mix2(p.aux[0], 950 + incarnations) & 1) ? 2 : 0;
+            rep.probes["restart-in-a-non-writing-mode"]++;
+        }
         u64 const kills_before = fs().n_kill;
         RunOut const o = w->run(p, rest, c);
         absorb(o, rep);
@@ -974,12 +1032,26 @@ static void exec_fscrash(Plan const& p, Report& rep)
                 o.what.c_str()));
             return;
         }
+        // whether the incarnation was killed or ran to its end: the file, if there is one, is complete
+        auto it = fs().files.find(CHK);
+        if (it != fs().files.end())
+        {
+            bool complete = false;
+            for (std::size_t j = 1; j < texts.size(); ++j) complete = complete || (texts[j] == it->second);
+            if (!complete)
+            {
+                rep.fail("C18", "incomplete-file", quiet ? "restart in a non-writing mode" : "truncate in place", fmt(
+                    "after incarnation %d (%s) the checkpoint file holds %zu bytes that are no complete checkpoint",
+                    incarnations, o.killed ? "killed" : "ran to its end", it->second.size()));
+                return;
+            }
+        }
+
         if (!o.killed) break;
         if (fs().n_kill != kills_before) rep.faults["kill-at-fs-event"]++;
         else rep.faults["kill-at-call"] += 0;   // counted by absorb
 
         // restart from what survived
-        auto it = fs().files.find(CHK);
         std::unique_ptr<IWorld> nw = make_world(p.nt, p.eng);
         ++rep.restarts;
         if (it == fs().files.end())
@@ -988,15 +1060,6 @@ static void exec_fscrash(Plan const& p, Report& rep)
         }
         else
         {
-            bool complete = false;
-            for (std::size_t j = 1; j < texts.size(); ++j) complete = complete || (texts[j] == it->second);
-            if (!complete)
-            {
-                rep.fail("C18", "incomplete-file", "truncate in place", fmt(
-                    "after kill number %d the checkpoint file holds %zu bytes that are no complete checkpoint",
-                    incarnations, it->second.size()));
-                return;
-            }
             LoadInfo info;
             if (!nw->load(p, it->second, info))
             {
@@ -1045,7 +1108,8 @@ static Plan gen_modes(Rng& r, int tier, std::string const&)
         static ld const targets[] = {0.5L, 0.2L, 0.1L, 0.03L, 0.01L, 0.001L};
         if (r.chance(0.5)) p.target = r.pick(targets);
     }
-    for (auto& d : p.dists) d.name = "d";
+    // distribution names: anything a user may write (they end up in the file of the writing modes)
+    if (r.chance(0.4)) for (auto& d : p.dists) d.name = "d";
     if (r.chance(0.3))
     {
         Fault f;
@@ -1242,10 +1306,14 @@ static Plan gen_mpi(Rng& r, int tier, std::string const& focus)
     GenOpts o;
     o.max_calls = tier ? 400 : 120;
     o.max_iters = 4;
-    if (focus == "C16") o.eng_class = 1;
+    // the tiling does not depend on the engine, what a call costs does: half of the C16 plans use the
+    // plain scripted engine, the others any engine (cost of a number differs between numeric types)
+    bool const c16_scripted = (focus == "C16") && r.chance(0.5);
+    if (c16_scripted) o.eng_class = 1;
+    if (focus == "C10") o.eng_class = r.chance(0.7) ? 3 : 0;
     if (focus == "C08") o.integ = MULTI;
     gen_world(r, p, o);
-    if (focus == "C16") p.eng = E_SCRIPT64;
+    if (c16_scripted) p.eng = E_SCRIPT64;
     static u64 const ps[] = {1, 2, 2, 3, 3, 4, 5, 7, 8, 8, 11, 13, 16, 17, 32, 33};
     p.P = r.chance(0.85) ? r.pick(ps) : 1 + r.below(33);
     if (!tier && p.P > 17 && r.chance(0.7)) p.P = 2 + r.below(7);
@@ -1308,7 +1376,7 @@ static Plan gen_mpi(Rng& r, int tier, std::string const& focus)
         p.rorder = 0;
         p.target = 0;
     }
-    if (r.chance(tier ? 0.0015 : 0.0008))
+    if (r.chance((focus == "C06") ? 0.004 : tier ? 0.0015 : 0.0008))
     {
         // volume run: more calls than a float can count (2^24), in the thorough tier rarely more than
         // an int can count (2^31); no call logs, counters and tiling from the cheap statistics
@@ -1330,6 +1398,15 @@ static Plan gen_mpi(Rng& r, int tier, std::string const& focus)
         bool const huge = tier && r.chance(0.02);
         p.calls.assign(1, (huge ? (1ULL << 31) : (1ULL << 24)) + 1 + r.below(6));
         if (huge) p.P = 2 + r.below(2);
+        if (r.chance(focus == "C06" ? 0.9 : 0.4))
+        {
+            // a handful of evaluations that are not finite: one more or less in 2^24 must still be counted
+            Fault f;
+            f.kind = FLT_POISON_HASH;
+            f.c = POISON_NAN;
+            f.v = 1 + r.below(256);   // density in 1/2^32: about 2^24 * v / 2^32 of the points
+            p.faults.push_back(f);
+        }
     }
     if (r.chance(0.3))
     {
@@ -1435,6 +1512,25 @@ static bool mpi_segment(Plan const& p, Session& s, std::vector<u64> const& seg_c
     };
     tiling();
 
+    // C10 under MPI: every process leaves the run with its generator advanced by calls x cost of a call,
+    // whether it evaluated any of the calls or not
+    if (!volume)
+    {
+        u64 total = 0;
+        for (u64 k = o.base; k < o.results; ++k) total += seg_calls[k - o.base] * per_call;
+        for (u64 r = 0; r != P; ++r)
+        {
+            if (o.ranks[r].pos != total)
+            {
+                rep.fail("C10", "mpi-generator-position", key, fmt(
+                    "rank %llu of %llu leaves the run at stream position %llu, calls x cost is %llu",
+                    (unsigned long long) r, (unsigned long long) P, (unsigned long long) o.ranks[r].pos,
+                    (unsigned long long) total));
+                break;
+            }
+        }
+    }
+
     // (a) same collectives on every rank
     for (u64 r = 1; r < P; ++r)
     {
@@ -1482,6 +1578,14 @@ static bool mpi_segment(Plan const& p, Session& s, std::vector<u64> const& seg_c
             }
             ResultView const& rv = v.results[k];
             rep.calls += calls;
+            if (nz != fin) rep.probes["volume-run-with-non-finite-evaluations"]++;
+            if (rv.nz - rv.fin != nz - fin || !std::isfinite(rv.sum) || !std::isfinite(rv.sumsq))
+            {
+                rep.fail("C06", "non-finite-count", fmt("%s %s mpi volume", integ_name(p.integ), nt_name(p.nt)), fmt(
+                    "iteration %llu with %llu calls: %llu evaluations were not finite, the result counts %llu non-zero and %llu finite (sum %.9Lg)",
+                    (unsigned long long) k, (unsigned long long) seg_calls[k - o.base], (unsigned long long) (nz - fin),
+                    (unsigned long long) rv.nz, (unsigned long long) rv.fin, rv.sum));
+            }
             if (rv.calls != seg_calls[k - o.base] || calls != rv.calls || rv.nz != nz || rv.fin != fin)
             {
                 rep.fail("C04", "counters-differ", key, fmt(
